@@ -167,6 +167,48 @@ def reneg_binding(chk):
             chk.violation(R, inst, P.src, 'saved offsets: %s' % sorted(saves), key='%s %s saves' % (R, key))
 
 
+def reneg_extension_required(chk):
+    """RFC 5746 3.5 / 3.7: in a renegotiation with a peer that supports secure renegotiation (reneg == 2) the hello message MUST
+    carry renegotiation_info, and the handshake must abort when it does not -- otherwise the binding to the previous Finished values
+    is simply skipped.  Decided on the bytecode: with eng.reneg pinned to 2 and the word that compares renegotiation_info with
+    saved_finished made non-returning (i.e. looking only at executions that never reach the comparison), the word that parses the
+    hello message must not be able to return."""
+    R = 'secure-renegotiation-binding'
+    for key, msg in (('hs_client', 'ServerHello'), ('hs_server', 'ClientHello')):
+        P = t0.Program(key)
+        L = P.layouts
+        o_sf = L.field(P.ctxname, 'eng.saved_finished')[0]
+        o_rn = L.field(P.ctxname, 'eng.reneg')[0]
+        I0 = t0ai.Interp(P).run_entry()
+        wcr = set(e.word for e in I0.events if e.name == 'memcmp' and any(a.isconst() and a.c == o_sf for a in e.args[:2]))
+        if len(wcr) != 1:
+            raise AnalysisBroken('%s: comparison word not identified' % key)
+        W_cr = next(iter(wcr))
+        callers = P.words_calling_word(W_cr)
+        if len(callers) != 1:
+            raise AnalysisBroken('%s: %d callers of the comparison word' % (key, len(callers)))
+        W_ch = callers[0]
+
+        class Cut(t0ai.Interp):
+            def run_word(self, w, st, ctx):
+                if w == W_cr:
+                    return None
+                return t0ai.Interp.run_word(self, w, st, ctx)
+        I = Cut(P, field_ranges={o_rn: (2, 2)})
+        I.run_entry()
+        rets = [k for k, (ins, out) in I.memo.items() if k[0] == W_ch and out]
+        inst = '%s: a renegotiation %s without renegotiation_info aborts the handshake' % (key, msg)
+        # control: without the cut the word does return
+        if not [k for k, (ins, out) in I0.memo.items() if k[0] == W_ch and out]:
+            raise AnalysisBroken('%s: control: the hello-parsing word never returns' % key)
+        if not rets:
+            chk.ok(R, inst, P.src, 'W%d cannot return unless W%d (comparison with saved_finished) has run' % (W_ch, W_cr))
+        else:
+            chk.violation(R, inst, P.src, 'with reneg == 2, W%d (parsing the %s) returns on executions that never compare renegotiation_info with the saved '
+                          'verify_data: a renegotiation %s that omits the extension is accepted unbound (RFC 5746 3.%s: MUST abort)'
+                          % (W_ch, msg, msg, '5' if key == 'hs_client' else '7'), key='%s %s missing-extension' % (R, key))
+
+
 def engine_rules(chk):
     s = 'src/ssl/ssl_engine.c'
     u = build.load_unit(s)
@@ -273,6 +315,7 @@ def run(tier):
         t0_fail_codes(chk, key)
     engine_rules(chk)
     reneg_binding(chk)
+    reneg_extension_required(chk)
     fail_call_sites(chk)
     io_rules(chk)
     chk.floor('rule instances', len(chk.obls), 100)
